@@ -412,6 +412,17 @@ def to_line(c):
     raise ValueError(c["op"])
 
 
+def lib_forecaster(fc):
+    """sktime's own forecasters for the oracle-only stream: naive strategies, and reductions (recursive = horizon optional,
+    direct = horizon REQUIRED at fit)"""
+    from sktime.forecasting.naive import NaiveForecaster
+    if fc.startswith("red:"):
+        from sklearn.linear_model import LinearRegression
+        from sktime.forecasting.compose import make_reduction
+        return make_reduction(LinearRegression(), strategy=fc.split(":")[1], window_length=2)
+    return NaiveForecaster(strategy=fc)
+
+
 # ----------------------------------------------------------------------------- real code
 def run_real(c):
     if c["op"] == "split":
@@ -428,7 +439,7 @@ def run_real(c):
         try:
             y, _ = make_data(c)
             scoring, _ = make_metric(c["met"])
-            f = NaiveForecaster(strategy=c["fc"])
+            f = lib_forecaster(c["fc"])
             apply_pre(f, c.get("pre"))
             res = evaluate(f, make_cv(c["cv"]), y, strategy=c["strat"], scoring=scoring, return_data=True)
         except Exception as e:
@@ -601,8 +612,27 @@ def _oracle_lib(c, out):
     except Exception:
         return fails
     if d["err"] != "none":
-        if splits and _cv_valid(c):
+        if splits and _cv_valid(c) and not c["fc"].startswith("red:"):
             fails.append(("evaluate:valid-call-raised", "evaluate raised %s with NaiveForecaster on an in-scope input" % d["err"]))
+        elif splits and _cv_valid(c):
+            # a reduction may itself refuse a fold (window too short for its lags, update with a horizon-bound forecaster):
+            # evaluate must raise only where the honest per-fold procedure raises too
+            try:
+                g = lib_forecaster(c["fc"])
+                for i, (tr, te) in enumerate(splits):
+                    fh = ForecastingHorizon(y.index[te], is_relative=False)
+                    if c["strat"] == "refit":
+                        g = lib_forecaster(c["fc"]); g.fit(y.iloc[tr], fh=fh)
+                    elif i == 0:
+                        g.fit(y.iloc[tr], fh=fh)
+                    else:
+                        g.update(y.iloc[tr])
+                    g.predict(fh)
+            except Exception:
+                return fails
+            key = "evaluate:refit-reuses-fitted-forecaster-bound-to-first-horizon" if (c["strat"] == "refit" and d["err"] == "E:value" and c["fc"] == "red:direct") \
+                else "evaluate:valid-call-raised"
+            fails.append((key, "evaluate raised %s with %s (%s) where fitting a fresh forecaster per fold answers every fold" % (d["err"], c["fc"], c["strat"])))
         return fails
     scores = parse_floats_(d["score"])
     lens = parse_ints_(d["len"]); cuts = parse_ints_(d["cut"])
@@ -610,11 +640,11 @@ def _oracle_lib(c, out):
     if not (len(scores) == len(lens) == len(cuts) == len(preds) == len(splits)):
         return [_rows_vs_splits([len(scores), len(lens), len(cuts), len(preds)], splits)]
     _, metric = make_metric(c["met"])
-    g = NaiveForecaster(strategy=c["fc"])
+    g = lib_forecaster(c["fc"])
     for i, (tr, te) in enumerate(splits):
         fh = ForecastingHorizon(y.index[te], is_relative=False)
         if c["strat"] == "refit":
-            g = NaiveForecaster(strategy=c["fc"]); g.fit(y.iloc[tr], fh=fh)
+            g = lib_forecaster(c["fc"]); g.fit(y.iloc[tr], fh=fh)
         elif i == 0:
             g.fit(y.iloc[tr], fh=fh)
         else:
@@ -1066,6 +1096,10 @@ def gen_cases(tier, rng):
                       "x": None, "xl": None, "pre": None, "ydt": ydt})
         if rng.random() < 0.5:
             cases[-1]["pre"] = _gen_pre(rng, cases[-1]["yl"])
+        if rng.random() < 0.2:
+            # reductions: a forecaster whose horizon is optional (recursive) and one that is bound to the horizon given at fit (direct)
+            cases[-1].update(fc=rng.choice(["red:recursive", "red:direct"]), pre=None, ydt="float64")
+            cases[-1]["yv"] = _values(rng, n, cases[-1]["ydt"])
     # ---- direct `_split` calls
     ns = 150 if quick else 1500
     for _ in range(ns):
